@@ -90,6 +90,10 @@ func init() {
 			}},
 		Rule{ID: "C13.d", Explain: "CreateDisclosureProofBuilder refuses range statements on disclosed attributes and files every accepted statement's structure under its attribute index; Commit commits every filed structure with the attribute and randomiser of that index.",
 			Run: func(P *Program, R *Report) { statementFilingRule(P, R) }},
+		Rule{ID: "C13.i", Explain: "a true statement's proof survives the wire: the verifier installs the derived response of a range proof (MResponse, which is not serialised) before it runs the structure check that demands it (the MResponse-before obligations of C12.b, same rule) - installed afterwards, every received disclosure proof with a range proof is refused.",
+			Run: func(P *Program, R *Report) {
+				sharedRule(P, R, "C12", "C12.b", "C13.i", func(c string) bool { return strings.Contains(c, "MResponse-before") })
+			}},
 	)
 }
 
